@@ -37,7 +37,14 @@ pub fn serialize(w: &g::Wd, enc: u8) -> Result<Stream, String> {
             }
             let ser = b.build();
             match w.serialize(&ser) {
-                Ok(t) => Ok(Stream::Tokens { readable: enc == 0, tokens: t.0 }),
+                Ok(t) => {
+                    // A format that is not self-describing prefixes every sequence with its length
+                    // and cannot write one whose length the `Serialize` impl did not state.
+                    if enc == 3 && t.0.iter().any(|t| matches!(t, Token::Seq { len: None } | Token::Map { len: None })) {
+                        return Err("sequence or map of unknown length: a length-prefixed format cannot write it".to_string());
+                    }
+                    Ok(Stream::Tokens { readable: enc == 0, tokens: t.0 })
+                }
                 Err(e) => Err(format!("{e}")),
             }
         }
@@ -60,6 +67,21 @@ pub fn deserialize(s: &Stream) -> Result<g::Wd, String> {
             Ok(w)
         }
         Stream::Json(bytes) => serde_json::from_slice::<g::Wd>(bytes).map_err(|e| format!("{e}")),
+    }
+}
+
+/// The same through `Deserialize::deserialize_in_place`, over an existing world.
+pub fn deserialize_in_place(s: &Stream, place: &mut g::Wd) -> Result<(), String> {
+    match s {
+        Stream::Tokens { readable, tokens } => {
+            let mut de = Deserializer::builder().tokens(Tokens(tokens.clone())).is_human_readable(*readable).build();
+            <g::Wd as Deserialize>::deserialize_in_place(&mut de, place).map_err(|e| format!("{e}"))
+        }
+        Stream::Json(bytes) => {
+            let mut de = serde_json::Deserializer::from_slice(bytes);
+            <g::Wd as Deserialize>::deserialize_in_place(&mut de, place).map_err(|e| format!("{e}"))?;
+            de.end().map_err(|e| format!("{e}"))
+        }
     }
 }
 
